@@ -156,6 +156,30 @@ pub fn check_c09(c: &DedupCase, acc: &mut Acc, record: bool) -> Verdict {
             other => return Verdict::Fail(format!("item {i} ({}) read back as {:?}, written {} (stream {})", tys[i].render(), other.as_ref().map(|v| v.brief()), want.brief(), hex(&bytes))),
         }
     }
+    // (e) fault: a forward reference. The first removed-field name in the header of a top-level evolved record is the
+    // first deduplicated string a reader meets; written as a back-reference to the id it is about to get (1), it
+    // refers to nothing the stream has introduced
+    if let Some((Ty::Adt(d), _)) = c.items.first() {
+        let names_in_header = match &d.body {
+            vmodel::DeclBody::Struct(r) => r.steps.iter().any(|s| matches!(s, Step::Removed { .. } | Step::MadeTransient { .. })),
+            _ => false,
+        };
+        if let (true, Some(s)) = (names_in_header, model.sites.iter().filter(|s| s.kind == SiteKind::RemovedName).min_by_key(|s| s.off)) {
+            let mut t = bytes.clone();
+            t.splice(s.off..s.off + s.len, var_i32_bytes(-1));
+            if record {
+                acc.bump("forward_reference_faults_injected", 1);
+            }
+            let (results, _) = match guarded(|| vcat::decode_many(&tys, &t)) {
+                Ok(r) => r,
+                Err(p) => return Verdict::Fail(format!("decoding a stream whose first header name is a forward reference panicked: {p} (stream {})", hex(&t))),
+            };
+            match results.first() {
+                Some(Err(e)) if e.kind == "InvalidStringId" => {}
+                other => return Verdict::Fail(format!("the first removed-field name of the stream written as a back-reference to id 1 (nothing introduced yet) was not rejected as InvalidStringId: {:?} (stream {})", other.map(|r| r.as_ref().map(|v| v.brief())), hex(&t))),
+            }
+        }
+    }
     // (d) fault: a back-reference to an id that was never introduced must be InvalidStringId
     if !repeats.is_empty() {
         let s = repeats[vmodel::gen::pick(c.fault_sel, repeats.len())];
@@ -224,7 +248,7 @@ pub fn run_c09(cx: &Cx) -> PropResult {
     PropResult::new(
         acc,
         "exploration",
-        "cases = write sequences over a six-string alphabet (empty, ASCII, non-ASCII, long, one equal to a removed field's name): (i) flat streams of 0-40 (dedup | plain) writes into one SerializationContext; (ii) tuples, Vec<DS>, Option/Result/LinkedList of DS; (iii) DS fields of version-0 records; (iv) DS fields of evolved records whose header carries 1-2 removed/transient names, nested in each other and repeated in a Vec so that the second instance's header names are back-references; plus run-time generated declarations with DS fields, and every declaration of the compiled batch (real derive-macro code) that contains a DS anywhere inside; 1-3 values back to back. Oracles: decode == strings written; stream byte-identical to the model (ids from 1 in first-occurrence order, header names before field strings, every repeat exactly zigzag_varint(-id), first occurrences as plain strings); flat streams without repeats identical to the all-plain stream; a rewritten back-reference to an id never introduced (introduced+1, i32::MIN, introduced+1000) decodes to Err(InvalidStringId). Same definition on both sides. Non-trivial = at least one repeat and a first occurrence after a repeat.",
+        "cases = write sequences over a six-string alphabet (empty, ASCII, non-ASCII, long, one equal to a removed field's name): (i) flat streams of 0-40 (dedup | plain) writes into one SerializationContext; (ii) tuples, Vec<DS>, Option/Result/LinkedList of DS; (iii) DS fields of version-0 records; (iv) DS fields of evolved records whose header carries 1-2 removed/transient names, nested in each other and repeated in a Vec so that the second instance's header names are back-references; plus run-time generated declarations with DS fields, and every declaration of the compiled batch (real derive-macro code) that contains a DS anywhere inside; 1-3 values back to back. Oracles: decode == strings written; stream byte-identical to the model (ids from 1 in first-occurrence order, header names before field strings, every repeat exactly zigzag_varint(-id), first occurrences as plain strings); flat streams without repeats identical to the all-plain stream; a rewritten back-reference to an id never introduced (introduced+1, i32::MIN, introduced+1000) decodes to Err(InvalidStringId); so does a forward reference (the first header name of a top-level evolved record rewritten as a back-reference to the id it would get). Same definition on both sides. Non-trivial = at least one repeat and a first occurrence after a repeat.",
     )
 }
 
